@@ -38,19 +38,31 @@ MANIFEST = {
             "real coap_register_async / coap_check_async / coap_async_trigger / coap_async_set_delay / coap_free_async on the "
             "virtual clock against the model, event by event (transmissions, handler calls, the entry list with the stored "
             "request, session reference counts, the reported wait), plus an oracle that reads the property off the "
-            "implementation's own report.",
+            "implementation's own report. Block mode kept across the requests of a session (Model/ServerBlock.lean, op srvb): "
+            "handle_request's save / force COAP_BLOCK_SINGLE_BODY (FETCH, force-single-body resource) / restore of "
+            "session->block_mode around coap_handle_request_put_block, the re-assembly itself being C09's srcvStep: after ANY "
+            "sequence of request datagrams every session runs in the configured block mode (block_mode_restored, "
+            "block_mode_reported_is_configured) and a Block1 fragment with the More bit never reaches a handler in single-body "
+            "mode whatever preceded it (single_body_fragment_never_reaches_handler); tied by differential runs of 1-14 "
+            "datagrams (FETCH / force-single-body requests, 2-4 block uploads in order / lost / duplicated / reordered / "
+            "interleaved, block modes 0, 1, 3) with the handler's coap_get_data_large view and session->block_mode compared, "
+            "plus an oracle: one handler call per body with the concatenation of the blocks in single-body mode, one per "
+            "block with its offset in per-block mode.",
     "note": "Deferred responses: session close by the application / context teardown are not events of the async machine "
             "(C12 covers them); a delayed invocation "
             "whose handler sets no code (D13), requests with an Observe option and the proxy-URI resource are outside the "
             "async machine's scope. Partial: proxy forwarding itself (coap_proxy.c) is outside the model — the proxy resource's handler is treated as an "
             "application handler (Empty ACK + separate CON response), coap_split_proxy_uri is an oracle; handler verdicts of 5.08, "
-            "requests with a registered OSCORE option, libcoap-managed block transfer (block mode 0 only) and Empty/response codes "
+            "requests with a registered OSCORE option, libcoap-managed block transfer beyond the Block1 request stage of "
+            "handle_request (Block2 responses / lg_xmit, Q-Block, Request-Tag, out-of-order completion, Block1 for the "
+            "unknown-resource handler; liveness of the re-assembly is proved on decided instances only, its soundness is C09's) "
+            "and Empty/response codes "
             "are out of scope; the /.well-known/core listing is opaque (C20). Trusted: Lean kernel (+ propext, Classical.choice, "
             "Quot.sound), the T1 extractor, the H-sim harness/generator, the hand transcription M (checked against the compiled code "
             "on the cases run only).",
     "design_ref": "DESIGN.md §4 C10, design/C10.md",
 }
-LEAN_MODULES = ["CoapVerif.Props.C10"]
+LEAN_MODULES = ["CoapVerif.Props.C10", "CoapVerif.Props.C10Block"]
 NAMESPACE = "Coap.C10"
 
 
@@ -663,6 +675,305 @@ def judge_async(ctx, c):
     return None
 
 
+# ---- block mode kept across requests on a session (op `srvb`): COAP_BLOCK_USE_LIBCOAP with / without COAP_BLOCK_SINGLE_BODY,
+# ---- FETCH requests, COAP_RESOURCE_FLAGS_FORCE_SINGLE_BODY resources, short Block1 uploads after them
+B_PATHS = [b"a", b"b", b"up", b"f", b"s/t"]
+B_OK = [65, 68, 68, 68, 69, 67]
+
+
+def b_simple(rng, res, unk, toks):
+    """a request without Block1: any method, aimed at a handler most of the time; FETCH carries a Content-Format"""
+    typ = 0 if rng.random() < 0.7 else 1
+    if res and rng.random() < 0.85:
+        p, mask, fl, ob = rng.choice(res)
+        ms = [m for m in range(1, 8) if mask >> (m - 1) & 1] or [1]
+        code = rng.choice(ms + ([5] if 5 in ms else []) * 3) if rng.random() < 0.9 else rng.randint(1, 7)
+        segs = p.split(b"/")
+    else:
+        code = rng.choice([1, 2, 3, 4, 5, 6, 7])
+        segs = [rng.choice([b"zz", b"nope"])]
+    opts = [(11, x) for x in segs]
+    if code == 5 and rng.random() < 0.93: opts.append((12, rng.choice([b"", b"\x32", b"\x3c"])))
+    elif rng.random() < 0.1: opts.append((12, b"\x2a"))
+    if rng.random() < 0.15: opts.append((15, rng.choice([b"x=1", b"k"])))
+    if rng.random() < 0.04: opts.append((23, rng.choice([b"", b"\x02", b"\x10"])))
+    if rng.random() < 0.05: opts.append((27, rng.choice([b"", b"\x02", b"\x07"])))       # Block1 NUM 0 without M: a single block
+    if rng.random() < 0.03: opts.append((258, rng.choice([b"\x02", b"\x1a"])))
+    opts.sort(key=lambda o: o[0])
+    pl = b"" if rng.random() < 0.4 else G.rbytes(rng, rng.randint(1, 10))
+    return G.encode("udp", typ, code, rng.randint(0, 0xFFFF), rng.choice(toks), opts, pl)
+
+
+def b_block_val(num, m, szx):
+    v = num << 4 | (8 if m else 0) | szx
+    out = b""
+    while v:
+        out = bytes([v & 255]) + out; v >>= 8
+    return out
+
+
+def b_upload(rng, res, unk, toks):
+    """the datagrams of one Block1 upload (2-4 blocks of 16/32/64 bytes): a list of (kind, datagram)"""
+    typ = 0 if rng.random() < 0.8 else 1
+    cands = [r for r in res if r[1] & (2 | 4 | 16 | 64)]
+    if cands and rng.random() < 0.93:
+        p, mask, fl, ob = rng.choice(cands)
+        code = rng.choice([m for m in (2, 3, 3, 5, 7) if mask >> (m - 1) & 1])
+        segs = p.split(b"/")
+    elif unk and rng.random() < 0.5:
+        code, segs = 3, [b"new"]
+    else:
+        p, mask, fl, ob = rng.choice(res)
+        code, segs = rng.choice([2, 3, 5]), p.split(b"/")
+    szx = rng.choice([0, 0, 1, 2])
+    chunk = 16 << szx
+    nblk = rng.choice([2, 2, 3, 3, 4])
+    body = G.rbytes(rng, (nblk - 1) * chunk + rng.choice([chunk, rng.randint(1, chunk), rng.randint(1, chunk)]))
+    cf = None
+    if code == 5 or rng.random() < 0.3: cf = rng.choice([b"", b"\x2a", b"\x3c"])
+    size1 = rng.random() < 0.2
+    same_tok = rng.random() < 0.3
+    tok = rng.choice(toks)
+    mid = rng.randint(0, 0xFFFF)
+    out = []
+    for k in range(nblk):
+        opts = [(11, x) for x in segs]
+        c = cf
+        if c is not None and k and rng.random() < 0.03: c = b"\x29"            # Content-Format changes in the middle
+        if c is not None: opts.append((12, c))
+        opts.append((27, b_block_val(k, k < nblk - 1, szx)))
+        if size1 and k == 0: opts.append((60, len(body).to_bytes(2, "big").lstrip(b"\0")))
+        opts.sort(key=lambda o: o[0])
+        pl = body[k * chunk:(k + 1) * chunk]
+        if rng.random() < 0.02 and k < nblk - 1: pl = pl[:-1]                  # undersized
+        out.append(G.encode("udp", typ, code, (mid + k) & 0xFFFF, tok if same_tok else G.rbytes(rng, rng.choice([1, 2, 4])), opts, pl))
+    c = rng.random()
+    if c < 0.08 and nblk > 2: del out[rng.randrange(1, nblk - 1)]              # a block lost, the upload goes on
+    elif c < 0.16: k = rng.randrange(len(out)); out.insert(k, out[k])          # a duplicate
+    elif c < 0.22: k = rng.randrange(len(out) - 1); out[k], out[k + 1] = out[k + 1], out[k]   # reordered
+    elif c < 0.27: out = out[:-1]                                              # abandoned
+    return out
+
+
+def gen_blockseq(rng):
+    bm = rng.choice([3, 3, 3, 3, 3, 1, 1, 1, 0])
+    n = rng.choice([1, 2, 2, 3])
+    paths = rng.sample(B_PATHS, n)
+    res = []
+    for p in paths:
+        mask = rng.choice([127, 127, 22, 6 | 16, 4, 1 | 4 | 16])
+        fl = (0x200 if rng.random() < 0.3 else 0) | (8 if rng.random() < 0.1 else 0)
+        res.append((p, mask, fl, int(rng.random() < 0.1)))
+    unk = (rng.choice([4, 6, 127]), 0) if rng.random() < 0.15 else None
+    toks = [G.rbytes(rng, rng.choice([0, 1, 2, 4, 8])) for _ in range(3)]
+    peers = rng.sample(range(16), rng.choice([1, 1, 2]))
+    evs = []
+    # what the change under test needs: something that forces COAP_BLOCK_SINGLE_BODY for one request (FETCH / a
+    # force-single-body resource), then an upload on the same session — but every other order as well
+    for _ in range(rng.choice([1, 2, 2, 3, 4])):
+        if rng.random() < 0.5:
+            evs.append([(rng.choice(peers), b_simple(rng, res, unk, toks))])
+        else:
+            peer = rng.choice(peers)
+            evs.append([(peer, d) for d in b_upload(rng, res, unk, toks)])
+    # interleave: mostly one after the other, sometimes a request in the middle of an upload
+    flat = []
+    for e in evs:
+        if len(e) > 1 and flat and rng.random() < 0.3:
+            k = rng.randrange(1, len(e))
+            e = e[:k] + [(rng.choice(peers), b_simple(rng, res, unk, toks))] + e[k:]
+        flat += e
+    flat = flat[:14]
+    steps = []
+    for peer, dg in flat:
+        v = "%d:%s" % (rng.choice(B_OK), hx(b"" if rng.random() < 0.5 else b"ok")) if rng.random() < 0.85 else gen_verdict(rng)
+        if v.startswith("168:"): v = "68:-"
+        steps.append("%d %s %s" % (peer, v, hx(dg)))
+    return "srvb " + cfg_words((0, 8, []), (res, unk, None)) + " %d " % bm + " ".join(steps)
+
+
+def b_steps(line):
+    w = line.split()
+    if len(w) < 11 or (len(w) - 8) % 3:
+        return None
+    return w[:8], [w[8 + 3 * j:11 + 3 * j] for j in range((len(w) - 8) // 3)]
+
+
+B_RE = re.compile(r"^tx=(\S+) h=(\S+) bm=(\d+)$")
+B_PLAIN_OPTS = {11, 12, 15, 27, 60}
+
+
+def judge_block_spec(line, impl):
+    """the property read off the implementation's own report, independently of M: every datagram makes at most one
+    handler call; a request that the table maps to a handler (plain options only) and that is NOT part of a block-wise
+    body in single-body mode reaches that handler with exactly its payload (per-block mode: with the block's place in
+    the body); in single-body mode (context configured COAP_BLOCK_SINGLE_BODY, or a FETCH, or a force-single-body
+    resource) a clean in-order Block1 upload on a session with no transfer pending for the resource reaches the handler
+    exactly once, at its last block, with the concatenation of the blocks — whatever requests preceded it"""
+    st = b_steps(line)
+    if st is None:
+        return None
+    head, steps = st
+    try:
+        bm = int(head[7])
+    except ValueError:
+        return None
+    res = []
+    if head[6] != "-":
+        for r in head[6].split(";"):
+            f = r.split(":")
+            res.append((bytes.fromhex(f[0]) if f[0] != "-" else b"", int(f[1]), int(f[2]) & ~1, int(f[3])))
+    outs = impl.split(SEP)
+    pending = {}        # (peer, resource index) -> clean upload in progress: dict(next, szx, code, cf, body)
+    dirty = set()       # (peer, resource index): something irregular happened, no longer judged
+    for k, (stp, o) in enumerate(zip(steps, outs)):
+        where = "datagram %d of %d: " % (k + 1, len(steps))
+        m = B_RE.match(o)
+        if not m:
+            return None
+        tx, h, _ = m.groups()
+        calls = [] if h == "-" else h.split("/")
+        if len(calls) > 1:
+            return ("spec", where + "more than one handler call: " + h)
+        try:
+            peer = int(stp[0])
+            typ, code, mid, tok, opts, pl = parse_udp(bytes.fromhex(stp[2]))
+        except Exception:
+            continue
+        if (bm & 1) == 0 and bm:
+            continue
+        nums = [n_ for n_, _ in opts]
+        path = b"/".join(v for n_, v in opts if n_ == 11)
+        ri = next((i for i, r in enumerate(res) if r[0] == path), None)
+        plain = (typ in (0, 1) and 1 <= code <= 7 and len(tok) <= 8 and set(nums) <= B_PLAIN_OPTS and len(set(nums) - {11, 15}) ==
+                 len([n_ for n_ in nums if n_ not in (11, 15)]) and all(b"%" not in v and v for n_, v in opts if n_ in (11, 15)))
+        if ri is None or not plain:
+            if ri is not None: dirty.add((peer, ri))
+            continue
+        key = (peer, ri)
+        r = res[ri]
+        reaches = (r[1] >> (code - 1) & 1) and not (r[2] & 0x400) and (code != 5 or 12 in nums)
+        if not reaches:
+            if 27 in nums: dirty.add(key)
+            continue
+        b1 = next((v for n_, v in opts if n_ == 27), None)
+        num = mbit = szx = 0
+        if b1 is not None:
+            if len(b1) > 3:
+                dirty.add(key); continue
+            v = int.from_bytes(b1, "big")
+            num, mbit, szx = v >> 4, v >> 3 & 1, v & 7
+            if szx == 7:
+                b1 = None
+        blockwise = b1 is not None and (num, mbit) != (0, 0)
+        single = bool(bm & 1) and (bool(bm & 2) or code == 5 or bool(r[2] & 0x200))
+        cf = next((v for n_, v in opts if n_ == 12), None)
+        want_name = "r%d" % ri
+
+        def call_ok(data, off, tot):
+            if len(calls) != 1:
+                return "no handler call"
+            f = calls[0].split(":")
+            if len(f) != 8 or f[0] != want_name or f[1] != str(code):
+                return "handler call " + calls[0]
+            if (f[5], f[6], f[7]) != (hx(data), str(off), str(tot)):
+                return "the handler was given data=%s offset=%s total=%s, the request's body is %s (offset %d, total %d)" % (
+                    f[5][:80], f[6], f[7], hx(data)[:80], off, tot)
+            return None
+        if not blockwise:
+            if key in pending:
+                # a plain request in the middle of an upload does not disturb it
+                pass
+            why = call_ok(pl, 0, len(pl))
+            if why:
+                return ("spec", where + "request for %s (method %d, not block-wise): %s — expected exactly the handler r%d with "
+                        "the request's payload" % (path.decode("latin1"), code, why, ri))
+            continue
+        if bm == 0:
+            why = call_ok(pl, 0, len(pl))
+            if why:
+                return ("spec", where + "block mode 0, the application handles blocks: " + why)
+            continue
+        chunk = 16 << szx
+        if 60 in nums or (mbit and len(pl) != chunk) or (not mbit and not (1 <= len(pl) <= chunk)) or key in dirty:
+            dirty.add(key); pending.pop(key, None)
+            continue
+        if not single:
+            # per-block mode: every block is handed to the handler with its place in the body
+            why = call_ok(pl, num * chunk, num * chunk + len(pl) + mbit)
+            if why:
+                return ("spec", where + "Block1 NUM %d of a body for %s in per-block mode (block mode %d): %s" % (
+                    num, path.decode("latin1"), bm, why))
+            continue
+        p_ = pending.get(key)
+        if p_ is None:
+            if num != 0:
+                dirty.add(key); continue
+            p_ = pending[key] = {"next": 0, "szx": szx, "code": code, "cf": cf, "body": b""}
+        if (num, szx, code, cf) != (p_["next"], p_["szx"], p_["code"], p_["cf"]):
+            dirty.add(key); pending.pop(key, None)
+            continue
+        p_["body"] += pl
+        p_["next"] += 1
+        if mbit:
+            if calls:
+                return ("spec", where + "Block1 NUM %d (More) of a body for %s in single-body mode (block mode %d%s): the handler "
+                        "ran with a fragment (%s) — expected one call with the whole body after the last block" % (
+                            num, path.decode("latin1"), bm, ", FETCH" if code == 5 else ", force-single-body resource" if r[2] & 0x200 else "",
+                            calls[0][:120]))
+            continue
+        body = p_["body"]
+        pending.pop(key, None)
+        why = call_ok(body, 0, len(body))
+        if why:
+            return ("spec", where + "last block (NUM %d) of a %d-byte body for %s in single-body mode (block mode %d): %s" % (
+                num, len(body), path.decode("latin1"), bm, why))
+    return None
+
+
+def b_match(i, m):
+    """I = M up to the diagnostic payload of a 4.08 generated by coap_handle_request_put_block (`*` in M)"""
+    if i == m:
+        return True
+    mi, mm = B_RE.match(i or ""), B_RE.match(m or "")
+    if not mi or not mm or mi.group(2) != mm.group(2) or mi.group(3) != mm.group(3):
+        return False
+    a, b = mi.group(1).split("/"), mm.group(1).split("/")
+    if len(a) != len(b):
+        return False
+    for x, y in zip(a, b):
+        fx, fy = x.split(":"), y.split(":")
+        if len(fx) != len(fy) or any(p != q and q != "*" for p, q in zip(fx, fy)):
+            return False
+    return True
+
+
+def judge_block(ctx, c):
+    i, m = c["impl"], c["model"]
+    if m == "malformed":
+        return None
+    if i is not None and i.startswith("crash"):
+        return ("spec", "implementation crashed: %s" % i[:200])
+    if m is None or not (m.startswith("tx=") or m.startswith("oos")):
+        return None if m == i else ("tie", "implementation %s but model M says %s" % (short(i), short(m)))
+    ms, is_ = m.split(SEP), (i or "").split(SEP)
+    n_ok = ms.index("oos") if "oos" in ms else len(ms)
+    if n_ok and len(is_) >= n_ok:
+        hd, steps = b_steps(c["input"]) or (None, None)
+        if steps:
+            v = judge_block_spec(" ".join(hd + [x for s_ in steps[:n_ok] for x in s_]), SEP.join(is_[:n_ok]))
+            if v:
+                return v
+    if "oos" not in ms and len(is_) != len(ms):
+        return ("tie", "implementation printed %d outcomes, the model %d" % (len(is_), len(ms)))
+    for k, (ik, mk) in enumerate(zip(is_, ms)):
+        if mk == "oos":
+            break
+        if not b_match(ik, mk):
+            return ("tie", "datagram %d of %d: implementation %s but model M says %s" % (k + 1, len(ms), short(ik), short(mk)))
+    return None
+
+
 def gen_mcast_case(rng):
     """per-resource multicast configuration (coap_mcast_per_resource): a multicast request that reaches a handler of a
     resource with some combination of the multicast flags, handler verdicts of every class, with/without No-Response"""
@@ -697,6 +1008,7 @@ def generate(ctx, escalate=False):
     out = [gen_case(ctx.rng) if ctx.rng.random() < 0.92 else gen_mcast_case(ctx.rng) for _ in range(n)]
     out += [gen_seq(ctx.rng) for _ in range(n // 4)]
     out += [gen_async(ctx.rng) for _ in range(n // 5)]
+    out += [gen_blockseq(ctx.rng) for _ in range(n // 5)]
     return out
 
 
@@ -736,6 +1048,8 @@ def judge(ctx, c):
         return judge_seq(ctx, c)
     if c["input"].startswith("asq "):
         return judge_async(ctx, c)
+    if c["input"].startswith("srvb "):
+        return judge_block(ctx, c)
     return judge_one(c["impl"], c["model"], c["spec"])
 
 
@@ -797,6 +1111,8 @@ def short(s):
 
 def nontrivial(c):
     m = c["model"] or ""
+    if c["input"].startswith("srvb "):
+        return m.startswith("tx=") and " h=r" in m
     if c["input"].startswith("asq "):
         return " a=" in m and (" a=-" not in m.split(SEP)[0] or ">" in m or any(" a=-" not in x for x in m.split(SEP)))
     return m.startswith("tx=") and any(x != "tx=- h=-" for x in m.split(SEP))
@@ -811,6 +1127,12 @@ def classify(c):
         return "asq|%s%s%s" % ("fired" if any("h=re" in x or "/re" in x for x in ms) else "nofire",
                                 "|ackagain" if any(x.startswith("tx=A:0:") and " h=- " in x for x in ms[1:]) else "",
                                 "|oos" if "oos" in ms else "")
+    if c["input"].startswith("srvb "):
+        ms = m.split(SEP)
+        w = c["input"].split()
+        return "blk|bm%s|%s%s%s" % (w[7] if len(w) > 7 else "?", "cont" if any(":95:" in x and " h=- " in x for x in ms) else "nocont",
+                                   "|body" if any(" h=r" in x and x.split(" bm=")[0].rsplit(":", 2)[-2] == "0" and ":95:" not in x
+                                                  for x in ms[1:]) else "", "|oos" if "oos" in ms else "")
     if c["input"].startswith("srvq "):
         ms = m.split(SEP)
         return "seq%d|%s" % (len(ms), classify({"input": "srv", "model": ms[-1]}))
@@ -845,6 +1167,7 @@ def search(ctx, tie_breaks, proof):
                 out.append(" ".join(w[:10] + [hx(dg[:1] + bytes([code]) + dg[2:])]))
     out += [gen_case(rng) for _ in range(40000)]
     out += [gen_seq(rng) for _ in range(10000)]
+    out += [gen_blockseq(rng) for _ in range(8000)]
     return out
 
 
@@ -857,6 +1180,8 @@ def shrink(ctx, case):
         return shrink_async(ctx, case)
     if case["input"].startswith("srvq "):
         return shrink_seq(ctx, case)
+    if case["input"].startswith("srvb "):
+        return shrink_block(ctx, case)
     for _ in range(4):
         w = best["input"].split()
         cands = []
@@ -927,6 +1252,40 @@ def shrink_seq(ctx, case):
                 cands.append(join(head, steps[:j] + [[st[0], st[1], puw, st[3], hx(G.encode("udp", typ, code, mid, tok, o2, pl))]] + steps[j + 1:]))
             if pl:
                 cands.append(join(head, steps[:j] + [st[:4] + [hx(G.encode("udp", typ, code, mid, tok, opts, b""))]] + steps[j + 1:]))
+        found = None
+        for cc in diff_side(ctx, me, cands[:300]):
+            v = judge(ctx, cc)
+            if v and v[0] == "spec" and len(cc["input"]) < len(best["input"]):
+                cc["why"] = v[1]
+                found = cc
+                break
+        if not found:
+            break
+        best = found
+    return best
+
+
+def shrink_block(ctx, case):
+    """drop datagrams / resources of a `srvb` line while the implementation still contradicts the property"""
+    from vlib.runner import diff_side
+    import props.C10 as me
+    best = case
+    for _ in range(10):
+        st = b_steps(best["input"])
+        if not st:
+            break
+        head, steps = st
+        join = lambda h, ss: " ".join(h + [x for s_ in ss for x in s_])
+        cands = [join(head, steps[:j] + steps[j + 1:]) for j in range(len(steps)) if len(steps) > 1]
+        if head[6] != "-":
+            rs = head[6].split(";")
+            for i in range(len(rs)):
+                cands.append(join(head[:6] + [";".join(rs[:i] + rs[i + 1:]) or "-"] + head[7:], steps))
+        if head[4] != "-":
+            cands.append(join(head[:4] + ["-"] + head[5:], steps))
+        for j, stp in enumerate(steps):
+            if stp[1] != "68:-":
+                cands.append(join(head, steps[:j] + [[stp[0], "68:-", stp[2]]] + steps[j + 1:]))
         found = None
         for cc in diff_side(ctx, me, cands[:300]):
             v = judge(ctx, cc)
@@ -1019,7 +1378,10 @@ REQUIRED_THEOREMS = ["decision_eq_spec", "at_most_one_reply", "reply_echoes_toke
                      "async_balance_inductive", "async_second_pass_same_handler",
                      "async_second_pass_handler_of_current_table", "async_deleted_resource_handler_never_runs",
                      "async_registered_entry_second_pass", "async_wait_of_untriggered_entry_witness",
-                     "async_second_pass_error_is_separate_response", "async_changing_table"]
+                     "async_second_pass_error_is_separate_response", "async_changing_table",
+                     "block_mode_restored", "block_mode_reported_is_configured", "block_mode_unchanged_by_request",
+                     "block_mode_zero_is_plain", "single_body_fragment_never_reaches_handler",
+                     "single_body_fragment_never_reaches_handler_any_state"]
 RULE = ("one line = one fresh server context + one request datagram: resource tables (0-4 ordinary resources from a pool of paths incl. "
         "'', '.well-known/core', percent-escaped and empty segments; per-method handler masks; observable; all multicast flag "
         "combinations; OSCORE-only; unknown-resource handler with/without HANDLE_WELLKNOWN_CORE; proxy resource with host name), "
@@ -1038,6 +1400,12 @@ RULE = ("one line = one fresh server context + one request datagram: resource ta
         "message id, other peer), virtual time steps 0-5000 ticks, coap_async_trigger / coap_async_set_delay / "
         "coap_free_async on the k-th entry, coap_delete_resource on the k-th resource (between the two passes of a deferred "
         "request), session idle timeout 1-3 s, Hop-Limit and No-Response options; "
+        "+ n/5 `srvb` lines = one server context with block mode 0 / USE_LIBCOAP / USE_LIBCOAP|SINGLE_BODY, 1-3 resources "
+        "(30% COAP_RESOURCE_FLAGS_FORCE_SINGLE_BODY), 1-2 peers, 1-14 datagrams: plain requests of every method (FETCH "
+        "favoured), Block1 uploads of 2-4 blocks of 16/32/64 bytes (PUT/POST/FETCH/iPATCH; a block lost / duplicated / "
+        "reordered / the upload abandoned / undersized block / Content-Format change / Size1), a plain request in the middle of "
+        "an upload, handler verdicts of every class; per datagram the transmissions, the handler's coap_get_data_large view "
+        "(data, offset, total) and session->block_mode afterwards are compared; "
         "non-trivial = distinct line on which the model prescribes a reply or a handler call")
 TRUSTED_BASE = ["Lean 4.33 kernel; axioms allowed: propext, Classical.choice, Quot.sound (audited per theorem each run)",
                 "T1 extractor extract/server.c (evaluation of coap_option_check_critical, coap_option_check_repeatable, "
@@ -1048,8 +1416,11 @@ TRUSTED_BASE = ["Lean 4.33 kernel; axioms allowed: propext, Classical.choice, Qu
                 "M (CoapVerif/Model/Server.lean) is a hand transcription of coap_dispatch (request path), handle_request, no_response, "
                 "coap_new_error_response, check_token_size, coap_option_check_critical, coap_get_uri_path/_query, the async lookup "
                 "(coap_find_async_lkd by session + token) and last_con_mid; Model/Async.lean of coap_async.c, coap_check_async, the "
-                "async branch of handle_request and the idle-session reaper; checked against the compiled code only on the cases run"]
-ASSUMPTIONS = ["UDP endpoint of a fresh context per line: no OSCORE context, block mode 0 (application handles blocks), Q-Block not "
+                "async branch of handle_request and the idle-session reaper; Model/ServerBlock.lean of the block-mode stage of "
+                "handle_request (save / force / restore, exits of coap_handle_request_put_block around C09's srcvStep); checked "
+                "against the compiled code only on the cases run"]
+ASSUMPTIONS = ["UDP endpoint of a fresh context per line: no OSCORE context, block mode 0 (application handles blocks; op srvb: also "
+               "COAP_BLOCK_USE_LIBCOAP with / without COAP_BLOCK_SINGLE_BODY, COAP_BLOCK_MAX_SIZE bits 0), Q-Block not "
                "enabled, no Echo pending; earlier datagrams at the context (op srvq) are requests whose handler defers indefinitely "
                "(coap_register_async delay 0, never triggered) or answers directly; observers, caches and retransmission of separate "
                "responses are other properties' state (C11, C06/C08)",
